@@ -1,7 +1,408 @@
-//! stub
-use serde_json::Value;
-use crate::engine::Ctx;
-pub const RULE: &str = "";
-pub const ASSUMPTIONS: &[&str] = &[];
-pub fn run(_ctx: &Ctx) {}
-pub fn replay(_part: &str, _case: &Value) -> Result<(), String> { Err("not implemented".into()) }
+//! C08 — pages sent through the controller arrive bit-exact, from any prior sign state.
+
+use std::cell::RefCell;
+use std::rc::Rc;
+
+use flipdot::{Address, Page, PageFlipStyle, PageId, Sign};
+use flipdot_core::{SignBus, State};
+use flipdot_testing::{VirtualSign, VirtualSignBus};
+use proptest::prelude::*;
+use serde::{Deserialize, Serialize};
+use serde_json::{json, Value};
+
+use crate::engine::{catch, h64, par_range, run_generated, Ctx, Stats};
+use crate::oracle::page::total_len;
+use crate::oracle::vsign::*;
+use crate::props::c12::{expand, hop_for_c08, Block, Fault, HOp};
+use crate::repr::M;
+
+pub const RULE: &str = "scenarios = sign type (all 11) x flip style x address (boundary set and uniform) x prior state of the virtual sign, produced (a) by a directed prefix for each of the 13 protocol states with variants (another sign type configured before, a partial page buffered, an abandoned transfer, pages stored, reset pending) and (b) by 0..40 messages/transfers of random prior traffic from the C12 alphabet, optionally with a second sign on the bus; then configure or configure_if_needed (the latter only where its trust contract holds, otherwise configure is used and counted), then 1..3 rounds of send_pages with 0..4 pages of the sign's size (blank, full, random bits, random raw bytes including header and padding; arbitrary ids) interleaved with show_loaded_page / load_next_page calls, optionally shut_down and a second configuration as a different type with another send. Oracle after every call: result Ok (with the sign's flip style for send_pages), VirtualSign state / sign_type / pages exactly as the statement prescribes (pages compared byte for byte, in order). Non-trivial = a prior state other than a fresh sign, or >= 2 pages, or a repeated send; distinct by hash of the scenario";
+pub const ASSUMPTIONS: &[&str] = &[
+    "the sign under the controller is flipdot's own VirtualSign (C13 covers its conformance to the sign-side state machine)",
+    "a panic during the *prior traffic* phase belongs to C12 and discards the scenario (counted); configure_if_needed on a sign that reports itself ready with the same type legitimately does nothing, so 'no pages' is then not asserted",
+];
+
+#[derive(Serialize, Deserialize, Debug, Clone, PartialEq, Eq, Hash)]
+pub enum PageSpec {
+    Blank(u8),
+    Full(u8),
+    Bits(u8, u64),
+    /// every byte (header, pixels, padding) pseudo-random
+    Raw(u64),
+}
+
+#[derive(Serialize, Deserialize, Debug, Clone, PartialEq, Eq, Hash)]
+pub struct Round {
+    pub pages: Vec<PageSpec>,
+    /// true = show_loaded_page, false = load_next_page
+    pub calls: Vec<bool>,
+}
+
+#[derive(Serialize, Deserialize, Debug, Clone, PartialEq, Eq, Hash)]
+pub struct Scenario {
+    pub sign_type: u8,
+    pub automatic: bool,
+    pub addr: u16,
+    pub bystander: Option<(u16, bool)>,
+    /// directed prefix: (target state index, variant)
+    pub directed: Option<(u8, u8)>,
+    pub prior: Vec<HOp>,
+    pub use_configure_if_needed: bool,
+    pub rounds: Vec<Round>,
+    /// shut down, reconfigure as this other type and send these pages
+    pub epilogue: Option<(u8, Vec<PageSpec>)>,
+}
+
+fn make_page(spec: &PageSpec, w: u32, h: u32) -> Page<'static> {
+    match spec {
+        PageSpec::Blank(id) => Page::new(PageId(*id), w, h),
+        PageSpec::Full(id) => {
+            let mut p = Page::new(PageId(*id), w, h);
+            p.set_all_pixels(true);
+            p
+        }
+        PageSpec::Bits(id, seed) => {
+            let mut p = Page::new(PageId(*id), w, h);
+            for x in 0..w {
+                for y in 0..h {
+                    if h64(&(*seed, x, y)) & 1 == 1 {
+                        p.set_pixel(x, y, true);
+                    }
+                }
+            }
+            p
+        }
+        PageSpec::Raw(seed) => {
+            let bytes: Vec<u8> = (0..total_len(w, h)).map(|i| h64(&(*seed, i as u64)) as u8).collect();
+            Page::from_bytes(w, h, bytes).expect("padded length")
+        }
+    }
+}
+
+/// message-level prefix that drives a fresh sign towards the given protocol state
+pub fn directed_prefix(state: u8, variant: u8, addr: u16, own_type: u8) -> Vec<HOp> {
+    let other = (own_type + 1 + variant % 9) % 11;
+    let ty = if variant % 2 == 0 { own_type } else { other };
+    let cfg = |t: u8| HOp::Config { addr, block: Block::Real(t), fault: Fault::None };
+    let pix = |pages: u8, fault: Fault, complete: bool| HOp::Pixels { addr, pages, seed: 77 + variant as u64, fault, complete };
+    let mut v: Vec<HOp> = vec![];
+    match state {
+        S_UNCONFIGURED => {
+            if variant % 3 == 1 {
+                v.extend([cfg(other), pix(1, Fault::None, true), HOp::Msg(M::Goodbye(addr))]);
+            } else if variant % 3 == 2 {
+                v.extend([cfg(other), HOp::Msg(M::Req(addr, O_START_RESET)), HOp::Msg(M::Req(addr, O_FINISH_RESET))]);
+            }
+        }
+        S_CONFIG_IN_PROGRESS => {
+            v.push(HOp::Msg(M::Req(addr, O_RECEIVE_CONFIG)));
+            if variant % 2 == 1 {
+                v.push(HOp::Msg(M::Data { off: 0, data: BLOCKS[other as usize].to_vec() }));
+            }
+        }
+        S_CONFIG_RECEIVED => v.push(cfg(ty)),
+        S_CONFIG_FAILED => v.push(HOp::Config { addr, block: Block::Real(ty), fault: Fault::CountDelta(1 + (variant % 3) as i8) }),
+        S_PIXELS_IN_PROGRESS => {
+            v.push(cfg(ty));
+            v.push(pix(1 + variant % 2, if variant % 3 == 0 { Fault::NoCount } else { Fault::Drop((variant as u16).wrapping_mul(9000)) }, false));
+            if variant % 3 != 0 {
+                // Drop still sends the count: re-enter the receiving state and abandon it half way
+                v.push(HOp::Msg(M::Req(addr, O_RECEIVE_PIXELS)));
+                v.push(HOp::Msg(M::Data { off: 0, data: vec![0x5A; 16] }));
+                v.push(HOp::Msg(M::Data { off: 16, data: vec![0xA5; 16] }));
+            }
+        }
+        S_PIXELS_RECEIVED => v.extend([cfg(ty), pix(1 + variant % 3, Fault::None, false)]),
+        S_PIXELS_FAILED => v.extend([cfg(ty), pix(1 + variant % 2, Fault::CountDelta(-1), false)]),
+        S_PAGE_LOADED | S_SHOWING_PAGES => v.extend([cfg(ty), pix(1 + variant % 3, Fault::None, true)]),
+        S_PAGE_SHOW_IN_PROGRESS => v.extend([cfg(ty), pix(2, Fault::None, true), HOp::Flip { addr, steps: 1 }]),
+        S_PAGE_SHOWN => v.extend([cfg(ty), pix(2, Fault::None, true), HOp::Flip { addr, steps: 3 }]),
+        S_PAGE_LOAD_IN_PROGRESS => v.extend([cfg(ty), pix(2, Fault::None, true), HOp::Flip { addr, steps: 4 }]),
+        S_READY_TO_RESET => {
+            match variant % 4 {
+                0 => {}
+                1 => v.push(cfg(ty)),
+                2 => v.extend([cfg(ty), pix(1, Fault::NoCount, false)]),
+                _ => v.extend([cfg(ty), pix(2, Fault::None, true)]),
+            }
+            v.push(HOp::Msg(M::Req(addr, O_START_RESET)));
+        }
+        _ => {}
+    }
+    v
+}
+
+fn ready(s: State) -> bool {
+    matches!(
+        s,
+        State::ConfigReceived | State::ShowingPages | State::PageLoaded | State::PageShowInProgress | State::PageShown | State::PageLoadInProgress
+    )
+}
+
+pub fn check_scenario(c: &Scenario, st: &mut Stats) -> Result<(), String> {
+    let (t, _, _, w, h) = TYPES[c.sign_type as usize % 11];
+    let flip = if c.automatic { PageFlipStyle::Automatic } else { PageFlipStyle::Manual };
+    let mut signs = vec![VirtualSign::new(Address(c.addr), flip)];
+    if let Some((a, f)) = c.bystander {
+        if a != c.addr {
+            signs.insert(
+                if a & 1 == 0 { 0 } else { 1 },
+                VirtualSign::new(Address(a), if f { PageFlipStyle::Automatic } else { PageFlipStyle::Manual }),
+            );
+        }
+    }
+    let idx = signs.iter().position(|s| s.address() == Address(c.addr)).unwrap();
+    let bus = Rc::new(RefCell::new(VirtualSignBus::new(signs)));
+
+    // ---- prior traffic (message level, straight onto the virtual bus) ----
+    let mut model = SignModel::new(c.addr, c.automatic);
+    let mut prefix: Vec<HOp> = c.directed.map(|(s, v)| directed_prefix(s % 13, v, c.addr, c.sign_type % 11)).unwrap_or_default();
+    prefix.extend(c.prior.iter().cloned());
+    let prior_ok = catch(|| {
+        for op in &prefix {
+            let (msgs, reps): (Vec<M>, u32) = match op {
+                HOp::Repeat { msg, n } => (vec![msg.clone()], (*n).min(50)),
+                other => (expand(other, model.w, model.h), 1),
+            };
+            for m in &msgs {
+                for _ in 0..reps {
+                    let _ = bus.borrow_mut().process_message(m.to_message());
+                    let _ = model.step(m);
+                }
+            }
+        }
+    });
+    if prior_ok.is_err() {
+        st.class("discarded:panic-in-prior-traffic(C12)");
+        return Ok(());
+    }
+    let prior_state = bus.borrow().sign(idx).state();
+    let prior_type = bus.borrow().sign(idx).sign_type();
+    let prior_pages = bus.borrow().sign(idx).pages().len();
+    let fresh = prefix.is_empty();
+
+    let sign = Sign::new(bus.clone(), Address(c.addr), t);
+    let observe = || {
+        let b = bus.borrow();
+        let s = b.sign(idx);
+        (s.state(), s.sign_type(), s.pages().iter().map(|p| (p.width(), p.height(), p.as_bytes().to_vec())).collect::<Vec<_>>())
+    };
+
+    // ---- configure ----
+    let trusted_ready = ready(prior_state) && prior_type == Some(t);
+    let cin_allowed = !ready(prior_state) || prior_type == Some(t);
+    let use_cin = c.use_configure_if_needed && cin_allowed;
+    if c.use_configure_if_needed && !cin_allowed {
+        st.class("configure_if_needed-outside-its-contract->configure");
+    }
+    let r = catch(|| if use_cin { sign.configure_if_needed() } else { sign.configure() })
+        .map_err(|p| format!("{} panicked (prior state {prior_state:?}): {p}", if use_cin { "configure_if_needed" } else { "configure" }))?;
+    st.eval();
+    let entry = if use_cin { "configure_if_needed" } else { "configure" };
+    if let Err(e) = r {
+        return Err(format!("{entry} failed from prior state {prior_state:?} (type {prior_type:?}, {prior_pages} pages): {e}"));
+    }
+    let (s, ty, pages) = observe();
+    if ty != Some(t) {
+        return Err(format!("after {entry} from {prior_state:?} the sign reports type {ty:?}, not {t:?}"));
+    }
+    if use_cin && trusted_ready {
+        if !ready(s) {
+            return Err(format!("after {entry} on a ready sign ({prior_state:?}) the sign is in {s:?}"));
+        }
+    } else {
+        if s != State::ConfigReceived {
+            return Err(format!("after {entry} from {prior_state:?} the sign is in {s:?}, not ConfigReceived"));
+        }
+        if !pages.is_empty() {
+            return Err(format!("after {entry} from {prior_state:?} the sign still holds {} pages", pages.len()));
+        }
+    }
+
+    // ---- rounds of send / show / load ----
+    let send_and_check = |specs: &[PageSpec], w: u32, h: u32, sign: &Sign, what: &str| -> Result<(), String> {
+        let list: Vec<Page<'static>> = specs.iter().map(|p| make_page(p, w, h)).collect();
+        let r = catch(|| sign.send_pages(&list)).map_err(|p| format!("{what}: send_pages panicked: {p}"))?;
+        let style = r.map_err(|e| format!("{what}: send_pages of {} pages failed: {e}", list.len()))?;
+        if style != flip {
+            return Err(format!("{what}: send_pages reported {style:?} for a {flip:?} sign"));
+        }
+        let (s, _, got) = observe();
+        let want_state = if c.automatic { State::ShowingPages } else { State::PageLoaded };
+        if s != want_state {
+            return Err(format!("{what}: after send_pages the sign is in {s:?}, not {want_state:?}"));
+        }
+        if got.len() != list.len() {
+            return Err(format!("{what}: sent {} pages, the sign holds {}", list.len(), got.len()));
+        }
+        for (i, (p, q)) in list.iter().zip(got.iter()).enumerate() {
+            if p.width() != q.0 || p.height() != q.1 || p.as_bytes() != &q.2[..] {
+                let d = p.as_bytes().iter().zip(q.2.iter()).position(|(a, b)| a != b);
+                return Err(format!(
+                    "{what}: page {i} differs on the sign ({}x{} vs {}x{}, first differing byte {:?})",
+                    p.width(),
+                    p.height(),
+                    q.0,
+                    q.1,
+                    d
+                ));
+            }
+        }
+        Ok(())
+    };
+    let mut sends = 0;
+    for (ri, round) in c.rounds.iter().enumerate() {
+        send_and_check(&round.pages, w, h, &sign, &format!("round {ri} from prior {prior_state:?}"))?;
+        sends += 1;
+        st.eval();
+        for (ci, &show) in round.calls.iter().enumerate() {
+            let before = observe();
+            let r = catch(|| if show { sign.show_loaded_page() } else { sign.load_next_page() }).map_err(|p| format!("round {ri} call {ci}: panicked: {p}"))?;
+            st.eval();
+            let name = if show { "show_loaded_page" } else { "load_next_page" };
+            r.map_err(|e| format!("round {ri} call {ci}: {name} failed in state {:?}: {e}", before.0))?;
+            let after = observe();
+            if c.automatic {
+                if after != before {
+                    return Err(format!("round {ri} call {ci}: {name} changed an automatic sign ({:?} -> {:?})", before.0, after.0));
+                }
+            } else {
+                let want = if show { State::PageShown } else { State::PageLoaded };
+                if after.0 != want {
+                    return Err(format!("round {ri} call {ci}: after {name} from {:?} the sign is in {:?}, not {want:?}", before.0, after.0));
+                }
+                if after.2 != before.2 {
+                    return Err(format!("round {ri} call {ci}: {name} changed the stored pages"));
+                }
+            }
+        }
+    }
+    // ---- epilogue: shut down, reconfigure as another type, send again ----
+    if let Some((other, specs)) = &c.epilogue {
+        let _ = catch(|| sign.shut_down()).map_err(|p| format!("shut_down panicked: {p}"))?;
+        let (t2, _, _, w2, h2) = TYPES[*other as usize % 11];
+        let sign2 = Sign::new(bus.clone(), Address(c.addr), t2);
+        catch(|| sign2.configure())
+            .map_err(|p| format!("second configure panicked: {p}"))?
+            .map_err(|e| format!("second configure (as {t2:?}) after shut_down failed: {e}"))?;
+        let (s, ty, pages) = observe();
+        if s != State::ConfigReceived || ty != Some(t2) || !pages.is_empty() {
+            return Err(format!("after reconfiguring as {t2:?} the sign is {s:?} / {ty:?} / {} pages", pages.len()));
+        }
+        send_and_check(specs, w2, h2, &sign2, "epilogue")?;
+        sends += 1;
+        st.eval();
+    }
+
+    let many_pages = c.rounds.iter().any(|r| r.pages.len() >= 2);
+    if !fresh || many_pages || sends >= 2 {
+        st.nontrivial(h64(c));
+    }
+    st.class(&format!("prior:{prior_state:?} x {entry}"));
+    if c.directed.is_some() && c.prior.is_empty() {
+        st.class("prior-by:directed-prefix");
+    } else if !c.prior.is_empty() {
+        st.class("prior-by:random-traffic");
+    } else {
+        st.class("prior-by:fresh-sign");
+    }
+    if st.want_sample() && !fresh && many_pages {
+        st.sample(json!({"type": format!("{t:?}"), "automatic": c.automatic, "addr": c.addr, "prior_state": format!("{prior_state:?}"), "prior_type": format!("{prior_type:?}"),
+            "entry": entry, "rounds": c.rounds.iter().map(|r| json!({"pages": r.pages.len(), "calls": r.calls})).collect::<Vec<_>>(), "epilogue": c.epilogue.as_ref().map(|e| e.0)}));
+    }
+    Ok(())
+}
+
+// ---------------------------------------------------------------------------------------
+
+fn page_spec_strategy() -> impl Strategy<Value = PageSpec> {
+    prop_oneof![
+        1 => any::<u8>().prop_map(PageSpec::Blank),
+        1 => any::<u8>().prop_map(PageSpec::Full),
+        3 => (any::<u8>(), any::<u64>()).prop_map(|(i, s)| PageSpec::Bits(i, s)),
+        2 => any::<u64>().prop_map(PageSpec::Raw),
+    ]
+}
+
+fn round_strategy(max_pages: usize) -> impl Strategy<Value = Round> {
+    (proptest::collection::vec(page_spec_strategy(), 0..=max_pages), proptest::collection::vec(any::<bool>(), 0..4)).prop_map(|(pages, calls)| Round { pages, calls })
+}
+
+fn scenario_strategy(max_pages: usize) -> impl Strategy<Value = Scenario> {
+    (
+        (0u8..11, any::<bool>(), prop_oneof![2 => proptest::sample::select(vec![0u16, 3, 0x7F, 0x100, 0xFFFF]), 1 => any::<u16>()]),
+        prop_oneof![2 => Just(None), 1 => (any::<u16>(), any::<bool>()).prop_map(Some)],
+        prop_oneof![1 => Just(None), 4 => (0u8..13, any::<u8>()).prop_map(Some)],
+        any::<bool>(),
+        proptest::collection::vec(round_strategy(max_pages), 1..=3),
+        prop_oneof![3 => Just(None), 1 => (0u8..11, proptest::collection::vec(page_spec_strategy(), 0..=2)).prop_map(Some)],
+        prop_oneof![3 => Just(0usize), 2 => 1usize..40],
+    )
+        .prop_flat_map(|((sign_type, automatic, addr), bystander, directed, cin, rounds, epilogue, n_prior)| {
+            let others = vec![addr.wrapping_add(1), bystander.map(|b: (u16, bool)| b.0).unwrap_or(addr ^ 0x0100)];
+            (
+                Just((sign_type, automatic, addr, bystander, directed, cin, rounds, epilogue)),
+                proptest::collection::vec(hop_for_c08(addr, others), n_prior..=n_prior),
+            )
+        })
+        .prop_map(|((sign_type, automatic, addr, bystander, directed, cin, rounds, epilogue), prior)| Scenario {
+            sign_type,
+            automatic,
+            addr,
+            bystander,
+            directed,
+            prior,
+            use_configure_if_needed: cin,
+            rounds,
+            epilogue,
+        })
+}
+
+pub fn run(ctx: &Ctx) {
+    // systematic: every type x flip style x every directed prior state x 4 variants x both entry points
+    par_range(ctx, "directed-prior-states", 11 * 2 * 13, |i, st| {
+        let sign_type = (i % 11) as u8;
+        let automatic = (i / 11) % 2 == 1;
+        let state = (i / 22) as u8;
+        for variant in 0..6u8 {
+            for cin in [false, true] {
+                let c = Scenario {
+                    sign_type,
+                    automatic,
+                    addr: [3u16, 0, 0xFFFF, 0x0100, 0x7F, 0xABCD][variant as usize],
+                    bystander: if variant % 2 == 0 { None } else { Some((0x0042, !automatic)) },
+                    directed: Some((state, variant)),
+                    prior: vec![],
+                    use_configure_if_needed: cin,
+                    rounds: vec![
+                        Round { pages: vec![PageSpec::Bits(1, i), PageSpec::Raw(i + 1)], calls: vec![true, false, false, true] },
+                        Round { pages: if variant % 3 == 0 { vec![] } else { vec![PageSpec::Full(9)] }, calls: vec![false, true] },
+                    ],
+                    epilogue: if variant == 5 { Some(((sign_type + 3) % 11, vec![PageSpec::Bits(2, 5)])) } else { None },
+                };
+                check_scenario(&c, st).map_err(|m| (serde_json::to_value(&c).unwrap(), m))?;
+            }
+        }
+        Ok(())
+    });
+    ctx.part_done("directed-prior-states", true, json!("11 types x 2 flip styles x 13 directed prior states x 6 variants x {configure, configure_if_needed}"));
+
+    let max_pages = ctx.tier.pick(4, 12);
+    run_generated(ctx, "scenarios", ctx.tier.pick(150_000, 2_000_000), move || scenario_strategy(max_pages), |c, st| check_scenario(c, st));
+
+    // generator health: every prior state must be reachable through both entry points often enough
+    if !ctx.stopped() {
+        for s in crate::oracle::table::STATES.iter().map(|x| x.0) {
+            let n = ctx.class_count(&format!("prior:{s:?} x configure")) + ctx.class_count(&format!("prior:{s:?} x configure_if_needed"));
+            // states a manual/automatic sign cannot both reach are still reached by one of the styles
+            if n < 50 {
+                ctx.inconclusive(format!("generator health: prior state {s:?} was exercised only {n} times"));
+            }
+        }
+    }
+}
+
+pub fn replay(_part: &str, case: &Value) -> Result<(), String> {
+    let c: Scenario = serde_json::from_value(case.clone()).map_err(|e| format!("bad case: {e}"))?;
+    check_scenario(&c, &mut Stats::new())
+}
